@@ -7,7 +7,7 @@
     [Inv] = [InvS] /\ [InvD]. *)
 From Coq Require Import Ascii String List Bool PArith NArith ZArith QArith FMapPositive Permutation.
 From PTBase Require Import Exn PyStr.
-From P Require Import Assoc GeoState GeoEdit GeoEdit2 GeoStep Inv InvNames InvSimple Sets InvCol InvConn InvDel InvRefresh InvRename InvCompound InvSplit InvSplit2 Reach Witness.
+From P Require Import Assoc GeoState GeoEdit GeoEdit2 GeoStep Inv InvNames InvSimple Sets InvCol InvConn InvDel InvRefresh InvRename InvCompound InvSplit InvSplit2 InvSnap InvDecomp InvRefine Reach Witness.
 Import ListNotations.
 Open Scope list_scope.
 
@@ -131,7 +131,74 @@ Print Assumptions rotate_preserves.
 Theorem translate_preserves : forall g dx dy dz, Inv g -> Inv (translate g dx dy dz).
 Proof. exact translate_inv. Qed.
 Print Assumptions translate_preserves.
-(** proved only for part of the invariant (the rest is covered by the correspondence run and the oracle) *)
+(** ** snapping surfaces to layers: the whole invariant when the layers (below the atmosphere layer) lie one below the
+    other -- strictly decreasing bottoms; for the nearest-layer variant also tops above the bottom of the same layer and not
+    above the bottom of the layer before.  add_layer accepts any elevations, so this is a hypothesis on the state. *)
+Theorem snap_columns_to_layers_preserves : forall g minth names g', Inv g -> layers_descend g ->
+  snap_columns_to_layers g minth names = Ok g' -> Inv g'.
+Proof. exact snap_columns_to_layers_inv. Qed.
+Print Assumptions snap_columns_to_layers_preserves.
+Theorem snap_columns_to_nearest_layers_preserves : forall g names g', Inv g -> layers_stacked g ->
+  snap_columns_to_nearest_layers g names = Ok g' -> Inv g'.
+Proof. exact snap_columns_to_nearest_layers_inv. Qed.
+Print Assumptions snap_columns_to_nearest_layers_preserves.
+
+(** fit_surface with the fitted elevations given: each surface assigned with its layer count, the columns snapped, the name
+    lists set up *)
+Theorem fit_surface_preserves : forall g names zs snap g', Inv g -> layers_descend g -> fit_surface g names zs snap = Ok g' -> Inv g'.
+Proof. exact fit_surface_inv. Qed.
+Print Assumptions fit_surface_preserves.
+
+(** ** triangulate_column / decompose_columns: the new centre node, the new columns (distinct corners of the old one,
+    wherever the table starts) and the old column's removal keep the object graph, the neighbour sets and the layer counts
+    -- in either source variant and whatever the state of the derived data ([InvS] alone is kept from [InvS] alone);
+    triangulate_column does not refresh the name lists, decompose_columns does *)
+Theorem triangulate_column_keeps_object_graph : forall g name g' names, InvS g -> triangulate_column g name = Ok (g', names) -> InvS g'.
+Proof. exact triangulate_column_invS. Qed.
+Print Assumptions triangulate_column_keeps_object_graph.
+Theorem triangulate_column_keeps_all_but_name_lists : forall g name g' names, Inv g -> triangulate_column g name = Ok (g', names) ->
+  InvS g' /\ S3b g' /\ S5n g'.
+Proof. exact triangulate_column_keeps. Qed.
+Print Assumptions triangulate_column_keeps_all_but_name_lists.
+Theorem decompose_columns_keeps_object_graph : forall g names hs hmiss g', InvS g ->
+  (forall g1, decompose_each g names hs = Ok g1 -> conns_ok g1 hmiss) ->
+  decompose_columns g names hs hmiss = Ok g' -> InvS g'.
+Proof. exact decompose_columns_invS. Qed.
+Print Assumptions decompose_columns_keeps_object_graph.
+(** the whole invariant in the repaired source (aa68858: add_connection keeps the neighbour sets; decompose_columns never
+    calls identify_neighbours), given that each missing connection it adds joins two different columns sharing a side *)
+Theorem decompose_columns_preserves : forall g names hs hmiss g', Inv g -> fx_nbr (fx g) = true ->
+  (forall g1, decompose_each g names hs = Ok g1 -> conns_ok g1 hmiss) ->
+  decompose_columns g names hs hmiss = Ok g' -> Inv g'.
+Proof. exact decompose_columns_inv. Qed.
+Print Assumptions decompose_columns_preserves.
+
+(** ** refine (no bisection), for every iteration order of its sets and every boundary-node list: the object graph from any
+    consistent object graph; the whole invariant (it identifies the neighbours and sets up the name lists itself, either
+    source variant) -- given that each missing connection it adds joins two different columns sharing a side *)
+Theorem refine_keeps_object_graph : forall g names h g', InvS g -> refine_conns_ok g names h -> refine g names h = Ok g' -> InvS g'.
+Proof. exact refine_invS. Qed.
+Print Assumptions refine_keeps_object_graph.
+Theorem refine_preserves : forall g names h g', Inv g -> refine_conns_ok g names h -> refine g names h = Ok g' -> Inv g'.
+Proof. exact refine_inv. Qed.
+Print Assumptions refine_preserves.
+(** no orphan node: when the connections around the selection lie on sides of its columns, one connection per side
+    ([refine_conforming]), every node that refine adds -- mid-side nodes at connections and on the boundary, centre nodes --
+    is a node of a column of the result.  (The mid-side node of a shared side is found from both columns because the
+    dictionary is keyed by the unordered pair of end-node names; a second node made for a side that has one already -- the
+    defect repaired by 721b330 -- would overwrite the entry and leave the first without a column.) *)
+Theorem refine_new_nodes_belong_to_columns : forall g names h g', InvS g -> refine_conforming g names -> refine g names h = Ok g' ->
+  forall a, In a (nlist g') -> ~ In a (nlist g) -> exists c', In c' (clist g') /\ In a (cns g' c').
+Proof. exact refine_new_nodes_used. Qed.
+Print Assumptions refine_new_nodes_belong_to_columns.
+(** every refined side of a triangle or quadrilateral is used by one of its sub-columns, whichever sides are refined
+    (checked by computation over all 8 + 16 side sets and the transition tables) *)
+Theorem refine_tables_cover_refined_sides : forall n f, n = 3%nat \/ n = 4%nat -> covers n (filter f (seq 0 n)) = true.
+Proof. exact covers_all. Qed.
+Print Assumptions refine_tables_cover_refined_sides.
+
+(** proved only for part of the invariant: the snaps without the hypothesis on the layers (all but the layer counts),
+    check(fix) / reduce in general (the object graph) *)
 Theorem snap_columns_to_layers_partial : forall g minth names g', InvS g -> S3b g -> snap_columns_to_layers g minth names = Ok g' ->
   InvS g' /\ S3b g' /\ (qltb 0 minth = true -> S6 g').
 Proof. exact InvCompound.snap_columns_to_layers_partial. Qed.
@@ -224,3 +291,12 @@ Print Assumptions example_repaired_split_keeps_inv.
 Theorem example_repaired_rename_keeps_inv : exists g', rename_column g_two_fixed [na] [nz] = Ok g' /\ Inv g'.
 Proof. exact rename_column_repaired_keeps_inv. Qed.
 Print Assumptions example_repaired_rename_keeps_inv.
+(** the hypotheses of the refine theorems are met: one of the two columns refined (hints: the one connection, all six nodes on
+    the boundary, the two columns, the eight missing connections in the order the model finds them) *)
+Theorem example_refine_runs : refine g_two [na] h_ref = Ok g_refined.
+Proof. exact g_refined_run. Qed.
+Print Assumptions example_refine_runs.
+Theorem example_refine_keeps_inv_and_leaves_no_orphan :
+  Inv g_refined /\ forall a, In a (nlist g_refined) -> ~ In a (nlist g_two) -> exists c', In c' (clist g_refined) /\ In a (cns g_refined c').
+Proof. exact refine_example. Qed.
+Print Assumptions example_refine_keeps_inv_and_leaves_no_orphan.
